@@ -423,7 +423,7 @@ func (l *Lexer) Advance() bool {
 			break
 		}
 
-		if char == '-' && !unicode.IsSpace(nextChar) {
+		if char == '-' && !unicode.IsSpace(nextChar) && nextChar != 0 {
 			if nextChar != '>' && nextChar != '=' {
 				l.reader.Unread()
 				return l.Advance()
